@@ -148,7 +148,7 @@ def run (body : List (List String)) : List (String × String) :=
              | none => s.fail "C05" s!"final-only burst from cursor #{idx}: irreversible events are not the canonical final blocks after the cursor block")
           | _, _ => s
         else s
-    | ["op", "through", start, idx, st, b, _, _] =>
+    | ["op", "through", start, idx, st, b, _, l] =>
       let start := start.toNat?.getD 0
       let idx := idx.toNat?.getD 0
       let cblk := (parseRefTok b).getD Ref.empty
@@ -162,17 +162,30 @@ def run (body : List (List String)) : List (String × String) :=
       let junctionNum := ((burst.filterMap (·.junction)).map (·.num)).foldl min (min cblk.num liveJ)
       if !ok || cblk.num < start || junctionNum < start then s else
       let _ := st
+      let clib := (parseRefTok l).getD Ref.empty
+      -- (b) the consumer's state at the cursor, rolled back to just below the start block: blocks between the
+      -- cursor's LIB and the start block are still held pending and may be announced final by the burst
+      let atCur : Option CState := (CState.run parent {} (s.evs.take (idx + 1))).map (fun (c : CState) =>
+        let c := if c.stack.any (·.id == clib.id) then
+          { stack := (c.stack.dropWhile (·.id != clib.id)).drop 1, final := some clib } else c
+        { c with stack := c.stack.filter (·.num < start) })
       match burst.head?, live with
       | some f, some lv =>
+        -- (a) a consumer starting afresh at the start block: nothing pending, resting on the parent of the first block
         let c0 : CState := { stack := [], final := some ⟨parent f.ref.id, 0⟩ }
-        (match CState.run parent c0 burst with
-         | some r =>
-           let wantStack := (idsOf lv.stack).filter (fun i => match tree.find? (fun (x : Id × Id × Nat) => x.1 == i) with | some x => x.2.2 ≥ start | none => true)
-           -- blocks the live consumer holds as final are delivered new+irreversible by the burst
-           let gotAll := idsOf r.stack
+        let wantStack := (idsOf lv.stack).filter (fun i => match tree.find? (fun (x : Id × Id × Nat) => x.1 == i) with | some x => x.2.2 ≥ start | none => true)
+        let fresh : Option (List Id) := (CState.run parent c0 burst).map (fun r => idsOf r.stack)
+        let resumed : Option CState := match atCur with
+          | some a => if clib.num < start then CState.run parent a burst else none
+          | none => none
+        (match fresh, resumed with
+         | some gotAll, _ =>
            if gotAll == wantStack || gotAll == idsOf lv.stack then s
            else s.fail "C05" s!"through-cursor burst from {start} via cursor #{idx} leaves the consumer on {gotAll}, expected {wantStack}"
-         | none => s.fail "C05" s!"through-cursor burst from {start} via cursor #{idx} violates the discipline")
+         | none, some r =>
+           if idsOf r.stack == idsOf lv.stack && r.final.map (·.id) == lv.final.map (·.id) then s
+           else s.fail "C05" s!"through-cursor burst from {start} via cursor #{idx} leaves the consumer on {idsOf r.stack} final {(r.final.map (·.id)).getD "-"}, the hub is on {idsOf lv.stack} final {(lv.final.map (·.id)).getD "-"}"
+         | none, none => s.fail "C05" s!"through-cursor burst from {start} via cursor #{idx} violates the discipline")
       | _, _ => s
     | _ => s) ({} : St)
   final.fails
